@@ -693,8 +693,13 @@ impl<Left: Executor, Right: Executor> Executor for MergeJoin<Left, Right> {
                 }
 
                 if matches!(self.join_type, JoinType::Right | JoinType::Full) {
-                    self.emitting_unmatched_right = true;
-                    return self.next();
+                    // Right rows still ahead of the cursor were matched by no left row.
+                    if let Some(right_row) = self.current_right.take() {
+                        let row = nulls_with_right(&right_row, self.left_cols());
+                        self.advance_right()?;
+                        self.stats.rows_produced += 1;
+                        return Ok(Some(row));
+                    }
                 }
                 return Ok(None);
             }
@@ -796,6 +801,13 @@ impl<Left: Executor, Right: Executor> Executor for MergeJoin<Left, Right> {
                     self.left_matched = false;
                 }
                 Ordering::Greater => {
+                    // The right row is below every remaining left key: it matches nothing.
+                    if matches!(self.join_type, JoinType::Right | JoinType::Full) {
+                        let row = nulls_with_right(right_row, self.left_cols());
+                        self.advance_right()?;
+                        self.stats.rows_produced += 1;
+                        return Ok(Some(row));
+                    }
                     self.advance_right()?;
                 }
                 Ordering::Equal => {
